@@ -25,6 +25,8 @@ type Obl struct {
 	PC     Term
 	Goal   Term
 	Parts  []Term // conjuncts of the goal, each decided by its own query
+	Uses   []string // resolved assumption flags to keep (nil: all)
+	NFlags int
 	Cover  bool // expected sat
 	NLits  int
 	Pos    token.Pos
@@ -86,6 +88,7 @@ type FnEnc struct {
 	cellClos map[*ssa.Alloc]*ClosInfo
 	curCallRecv ssa.Value
 	compT    map[string]types.Type
+	flags    []string // assumption switches, in order of declaration
 	litOrder []string
 }
 
@@ -129,6 +132,20 @@ func (fe *FnEnc) define(prefix string, t Term) Term {
 	c := fe.fresh(prefix, t.Sort)
 	fe.emit("(assert (= " + c.S + " " + t.S + "))")
 	return c
+}
+
+// assumeFlagged asserts an assumption that individual obligations can switch off (uses(...) lists).
+func (fe *FnEnc) assumeFlagged(st *State, flag string, f Term) {
+	if f.S == "true" {
+		return
+	}
+	n := q("use." + flag)
+	if !fe.declared[n] {
+		fe.declared[n] = true
+		fe.emit("(declare-const " + n + " Bool)")
+		fe.flags = append(fe.flags, flag)
+	}
+	fe.emit("(assert " + tImp(tAnd(st.pc, Term{n, sBool}), f).S + ")")
 }
 
 func (fe *FnEnc) assume(st *State, f Term) {
@@ -557,8 +574,8 @@ func (fe *FnEnc) store(st *State, a *Addr, v Term) {
 			// forward propagation: elements known in the old heap are known in the new one (witnesses for existential goals)
 			h2 := fe.getComp(st, cn, cs)
 			pos := fe.define("st.pos", a.pos)
-			fe.emit(fmt.Sprintf("(assert (forall ((p Int)) (! (=> (not (= p %s)) (= (select (select %s %s) p) (select (select %s %s) p))) :pattern ((select (select %s %s) p)))))",
-				pos.S, h2.S, a.base.S, h.S, a.base.S, h.S, a.base.S))
+			fe.emit(fmt.Sprintf("(assert (forall ((p Int)) (! (=> (not (= p %s)) (= (select (select %s %s) p) (select (select %s %s) p))) :pattern ((select (select %s %s) p)) :pattern ((select (select %s %s) p)))))",
+				pos.S, h2.S, a.base.S, h.S, a.base.S, h.S, a.base.S, h2.S, a.base.S))
 		}
 	case aCell:
 		cs := fe.sorts.sortOf(a.T)
@@ -752,7 +769,7 @@ func (fe *FnEnc) addObl(st *State, kind, label string, props []string, goal Term
 	if n := fe.oblCount[base]; n > 1 {
 		id = fmt.Sprintf("%s#%d", base, n)
 	}
-	o := &Obl{ID: id, Fn: fe.pkgShort() + "." + fe.key, Kind: kind, Props: props, Prefix: len(fe.lines), PC: st.pc, Goal: goal, Pos: pos, NLits: len(fe.litOrder)}
+	o := &Obl{ID: id, Fn: fe.pkgShort() + "." + fe.key, Kind: kind, Props: props, Prefix: len(fe.lines), PC: st.pc, Goal: goal, Pos: pos, NLits: len(fe.litOrder), NFlags: len(fe.flags)}
 	fe.obls = append(fe.obls, o)
 	return o
 }
@@ -763,6 +780,57 @@ func (fe *FnEnc) pkgShort() string {
 		return "olareg"
 	}
 	return d
+}
+
+// flagSettings gives the assertions fixing the assumption switches for one obligation.
+func (fe *FnEnc) flagSettings(o *Obl) []string {
+	var out []string
+	for _, f := range fe.flags[:o.NFlags] {
+		on := o.Uses == nil
+		for _, u := range o.Uses {
+			if u == f || (strings.HasSuffix(u, "*") && strings.HasPrefix(f, strings.TrimSuffix(u, "*"))) {
+				on = true
+			}
+			// Key:label matches call.Key@n.label for every call occurrence
+			if k, l, ok := strings.Cut(u, ":"); ok && strings.HasPrefix(f, "call."+k+"@") && strings.HasSuffix(f, "."+l) {
+				on = true
+			}
+		}
+		if on {
+			out = append(out, "(assert "+q("use."+f)+")")
+		} else {
+			out = append(out, "(assert (not "+q("use."+f)+"))")
+		}
+	}
+	return out
+}
+
+// resolveUses turns the names of a uses(...) list into flag names; bare names are invariants of loop ord.
+func resolveUses(uses []string, ord int, self string) []string {
+	if uses == nil {
+		return nil
+	}
+	out := []string{}
+	if self != "" {
+		out = append(out, self)
+	}
+	for _, u := range uses {
+		switch {
+		case strings.Contains(u, ":"):
+			if n, l, ok := strings.Cut(u, ":"); ok {
+				if _, err := fmt.Sscanf(n, "%d", new(int)); err == nil {
+					out = append(out, "L"+n+"."+l)
+					continue
+				}
+			}
+			out = append(out, u)
+		case ord > 0:
+			out = append(out, fmt.Sprintf("L%d.%s", ord, u))
+		default:
+			out = append(out, u)
+		}
+	}
+	return out
 }
 
 // splitGoal breaks a specification into conjuncts (through predicates, implications and universal quantifiers).
@@ -826,9 +894,10 @@ func (fe *FnEnc) addOblExpr(st *State, kind, label string, props []string, ex Ex
 	o := fe.addObl(st, kind, label, props, tAnd(ts...), pos)
 	if len(ts) > 1 {
 		o.Parts = ts
-		o.Prefix = len(fe.lines)
-		o.NLits = len(fe.litOrder)
 	}
+	o.Prefix = len(fe.lines)
+	o.NLits = len(fe.litOrder)
+	o.NFlags = len(fe.flags)
 	return o
 }
 
